@@ -514,7 +514,7 @@ def run_robot(c, job, opts=None):
         import robotpy_ext.misc.precise_delay as _pd
         import robotpy_ext.misc.simple_watchdog as _wd
 
-        _pd.int = _wd.int = sx.sym_int
+        _pd.int = _wd.int = sx.IntShadow
         per = c.real("period", 0.001, 0.1)
     H.period = per
     H.period_us = sx.sym_int(per * 1e6) if isinstance(per, sx.SNum) else int(per * 1e6)
